@@ -132,7 +132,16 @@ def _world(focus, name=None, **kw):
 
 
 PROPS.update({
-    "C03": {"level": "exploration", "rule": WORLD_RULE, "suites": [_world("C03")], "min_counters": {"sync_audits": 500},
+    "C03": {"level": "fault_enumeration",
+            "rule": WORLD_RULE + " Second suite (single-fault enumeration): fault-free base conversations (honest data evolution only) are run once to "
+            "learn, per scripted exchange, the number of transport receive calls, PDUs and bytes of the answer; then the conversation is re-run with exactly "
+            "one fault: every receive call x {error, EINTR}, the query's send x {error, EINTR, would-block}, every PDU position x 18 protocol deviations, "
+            "cuts at 25 byte offsets x {close, stall}, hang-up, silence, Cache Reset (thorough: all points of every base; quick: a stratified sample).",
+            "suites": [_world("C03", runs_quick=900, time_quick=25),
+                       {"name": "world-C03-sweep", "kind": "faultsweep", "scn": "world", "variant": "asan", "opts": {"focus": "C03", "single": 1, "clean": 1, "maxx": 5},
+                        "runs_quick": 12, "time_quick": 30, "k_per_base_quick": 120, "runs_thorough": 150, "time_thorough": 600}],
+            "min_counters": {"sync_audits": 500, "faultsweep_points": 500},
+            "exhaustive_note": "thorough tier: every single-fault point of every sampled base conversation is executed (exhaustive per base); bases are sampled",
             "expected_probes": ["probe_failed_sync_records_kept", "probe_reload_with_old_data", "walk_fail_dup", "walk_fail_unk", "walk_fail_flags",
                                 "walk_fail_sess-cr", "walk_fail_sess-eod", "sync_with_transport_fault"],
             "assumptions": ["exchange classification = reference walk over the exact byte stream, written from the property text"]},
@@ -155,10 +164,14 @@ PROPS.update({
             "suites": [_world("C07")], "min_counters": {"stop_audits": 500},
             "expected_probes": ["probe_expired_at_open", "probe_expiry_band_at_open", "expiry_audits", "fault_unreachable"],
             "assumptions": ["+-2 s indifference band around the expire interval (second-granular, rounded-up library clock)"]},
-    "C08": {"level": "exploration", "rule": WORLD_RULE + " C08: after the scripted fault phase the cache answers correctly with a fixed data set; the socket must reach "
+    "C08": {"level": "fault_enumeration", "rule": WORLD_RULE + " C08: after the scripted fault phase the cache answers correctly with a fixed data set; the socket must reach "
             "ESTABLISHED with exactly the cache's records within refresh + expire + 4*retry + 360 s of simulated time; deadlock, busy loop and step-limit "
             "detectors cover 'never loops without letting time advance'.",
-            "suites": [_world("C08")], "min_counters": {"sync_audits": 500, "probe_converged_runs": 100},
+            "suites": [_world("C08", runs_quick=900, time_quick=25),
+                       {"name": "world-C08-sweep", "kind": "faultsweep", "scn": "world", "variant": "asan", "opts": {"focus": "C08", "single": 1, "clean": 1, "maxx": 5},
+                        "runs_quick": 12, "time_quick": 30, "k_per_base_quick": 120, "runs_thorough": 150, "time_thorough": 600}],
+            "min_counters": {"sync_audits": 500, "probe_converged_runs": 100, "faultsweep_points": 500},
+            "exhaustive_note": "thorough tier: every single-fault point (call site x fault kind, PDU position x deviation kind) of every sampled base conversation, each followed by recovery",
             "assumptions": ["during the fault phase every response the client accepts is honest (DESIGN §8 C08)"]},
     "C13": {"level": "exploration", "rule": WORLD_RULE + " C13 plans add: caches that only speak version 0, answers in version 0 to version-1 queries, Unsupported-Version "
             "reports carrying version 0/1/2/255, hang-ups before a session exists, PDUs with arbitrary version bytes, End of Data in the other version's format.",
